@@ -74,7 +74,7 @@ func (g *LayoutGen) methodName() string {
 			sb.WriteByte(byte('a' + g.R.Intn(26)))
 		}
 		n := sb.String()
-		if !g.used[n] && n != "Convergen" {
+		if !g.used[n] && n != "Convergen" && n != "X" { // X is the field name of the operand structs
 			g.used[n] = true
 			return n
 		}
